@@ -3,16 +3,20 @@ EXTENDS ExtractFS
 
 NamesFull == { <<"a">>, <<"b">>, <<"a", "c">>, <<"b", "a">>, <<"b", "a", "c">>, <<"b", "a", "c", "e">>,
                <<"..", "x">>, <<"a", "..", "..", "x">>, <<"/", "a">>, <<"/", "O", "x">>, <<"J", "a">>, <<".", "a">>, <<"a", "..", "b">> }
-Targets == { <<".">>, <<"..">>, <<"..", "..">>, <<"a">>, <<"a", "..">>, <<"/", "J", "a">>, <<"/", "O">>, <<"c">> }
+Targets == { <<".">>, <<"..">>, <<"..", "..">>, <<"a">>, <<"a", "..">>, <<"/", "J", "a">>, <<"/", "O">>, <<"c">>, <<"..", "Jx">> }
 E(n, k, t) == [name |-> n, kind |-> k, tgt |-> t]
 EntriesOf(names, targets) == { E(n, "file", <<>>) : n \in names } \cup { E(n, "dir", <<>>) : n \in names }
                              \cup { E(n, "link", t) : n \in names, t \in targets }
 Full == EntriesOf(NamesFull, Targets)
 NamesRed == { <<"b", "a">>, <<"b", "a", "c">>, <<"b", "a", "c", "e">>, <<"a">>, <<"a", "c">> }
-Red == { E(n, "file", <<>>) : n \in NamesRed } \cup { E(n, "link", t) : n \in NamesRed, t \in { <<".">>, <<"..">>, <<"..", "..">> } }
+Red == { E(n, "file", <<>>) : n \in NamesRed } \cup { E(n, "link", t) : n \in NamesRed, t \in { <<".">>, <<"..">>, <<"..", "..">>, <<"..", "Jx">> } }
 
 Len1 == { <<e>> : e \in Full }
 Len2 == { <<e1, e2>> : e1 \in Full, e2 \in Full }
 Len3Red == { <<e1, e2, e3>> : e1 \in Red, e2 \in Red, e3 \in Red }
 QuickArchives == Len1 \cup Len2 \cup Len3Red
+(* known escapes of the unguarded extraction: the negative control *)
+NegArchives == { << E(<<"b", "a">>, "link", <<"..">>), E(<<"b", "a", "c">>, "link", <<"..">>), E(<<"b", "a", "c", "e">>, "file", <<>>) >>,
+                 << E(<<"a">>, "link", <<".">>), E(<<"a", "..", "b">>, "link", <<"a">>) >>,
+                 << E(<<"b", "a">>, "link", <<"..">>), E(<<"b", "a", "c">>, "link", <<"..", "Jx">>), E(<<"b", "a", "c", "e">>, "file", <<>>) >> }
 =============================================================================
